@@ -20,7 +20,7 @@ from .z3env import z3
 
 MAX_PATHS = 20000
 FEAS_TIMEOUT_MS = 1500
-PROVE_TIMEOUT_MS = 20000
+PROVE_TIMEOUT_MS = 8000
 REFUTE_TIMEOUT_MS = 10000
 
 
@@ -181,7 +181,14 @@ class Ctx:
                 self.die(Infeasible("assume False"))
             return
         self.pc.append(f)
-        self.solver.add(f)
+        self._feas_add(f)
+
+    def _feas_add(self, f):
+        """The incremental solver that prunes infeasible branches only sees the quantifier-free part of
+        the path condition (sound: fewer assumptions can only keep more paths alive) - quantified
+        invariants make every feasibility query time out."""
+        if not _has_quantifier(f):
+            self.solver.add(f)
 
     def check(self, name, goal, props=None, info=""):
         """Emit obligation pc |- goal, then continue under the assumption that it holds."""
@@ -198,7 +205,7 @@ class Ctx:
         if isinstance(goal, bool):
             return
         self.pc.append(goal)
-        self.solver.add(goal)
+        self._feas_add(goal)
 
     def event(self, *ev):
         self._alive()
@@ -206,6 +213,20 @@ class Ctx:
 
     def feasible_now(self):
         return self.solver.check() != z3.unsat
+
+
+def _has_quantifier(e):
+    todo, seen = [e], set()
+    while todo:
+        x = todo.pop()
+        i = x.get_id()
+        if i in seen:
+            continue
+        seen.add(i)
+        if z3.is_quantifier(x):
+            return True
+        todo.extend(x.children())
+    return False
 
 
 def explore(run_one, unit_name="", max_paths=MAX_PATHS, props=()):
@@ -332,29 +353,137 @@ def _has_free_var(e):
     return False
 
 
+def _expand(e, elems_by_sort, cache):
+    """Finite-scope expansion of a formula: quantifiers over uninterpreted sorts become finite
+    conjunctions / disjunctions over the scope's elements, ``card`` becomes the defining sum, equality of
+    arrays indexed by a scoped sort becomes pointwise equality on the scope."""
+    i = e.get_id()
+    if i in cache:
+        return cache[i][1]
+    if z3.is_quantifier(e):
+        n = e.num_vars()
+        sorts = [e.var_sort(j) for j in range(n)]
+        doms = []
+        for srt in sorts:
+            if srt.kind() != z3.Z3_UNINTERPRETED_SORT or srt.name() not in elems_by_sort:
+                raise _NoExpansion(f"quantifier over {srt}")
+            doms.append(elems_by_sort[srt.name()])
+        body = e.body()
+        insts = []
+        import itertools
+
+        for tup in itertools.product(*doms):
+            # de Bruijn: Var(0) is the LAST bound variable
+            inst = z3.substitute_vars(body, *reversed(tup))
+            insts.append(_expand(inst, elems_by_sort, cache))
+        r = (z3.And(insts) if e.is_forall() else z3.Or(insts)) if insts else z3.BoolVal(e.is_forall())
+        if e.is_lambda():
+            raise _NoExpansion("lambda")
+        cache[i] = (e, r)  # keep e alive: z3 ast ids are recycled
+        return r
+    if not z3.is_app(e):
+        cache[i] = (e, e)
+        return e
+    kids = [_expand(c, elems_by_sort, cache) for c in e.children()]
+    d = e.decl()
+    if d.name() == "card" and len(kids) == 1 and _is_arr(kids[0].sort()):
+        srt = kids[0].sort().domain()
+        els = elems_by_sort.get(srt.name())
+        if els is None:
+            raise _NoExpansion("card over unscoped sort")
+        r = z3.Sum([z3.If(z3.Select(kids[0], x), 1, 0) for x in els])
+    elif d.kind() == z3.Z3_OP_EQ and _is_arr(kids[0].sort()):
+        r = _array_eq(kids[0], kids[1], elems_by_sort)
+    elif d.kind() == z3.Z3_OP_DISTINCT and _is_arr(kids[0].sort()):
+        raise _NoExpansion("distinct on arrays")
+    elif not kids:
+        r = e
+    else:
+        k = d.kind()
+        if k == z3.Z3_OP_AND:
+            r = z3.And(kids)
+        elif k == z3.Z3_OP_OR:
+            r = z3.Or(kids)
+        elif k == z3.Z3_OP_ADD:
+            r = z3.Sum(kids)
+        elif k == z3.Z3_OP_MUL:
+            r = z3.Product(kids)
+        elif k == z3.Z3_OP_DISTINCT:
+            r = z3.Distinct(*kids)
+        elif all(a.eq(b) for a, b in zip(kids, e.children())):
+            r = e
+        else:
+            try:
+                r = z3.substitute(e, *[(a, b) for a, b in zip(e.children(), kids) if not a.eq(b)])
+            except z3.Z3Exception:
+                bad = [(a.sort(), b.sort() if hasattr(b, "sort") else type(b), a.decl().name()) for a, b in zip(e.children(), kids)]
+                raise _NoExpansion(f"rebuild failed for {d.name()}: {bad}")
+    cache[i] = (e, r)  # keep e alive: z3 ast ids are recycled
+    return r
+
+
+def _is_arr(srt):
+    return srt.kind() == z3.Z3_ARRAY_SORT
+
+
+def _array_eq(a, b, elems_by_sort):
+    srt = a.sort().domain()
+    if srt.kind() != z3.Z3_UNINTERPRETED_SORT or srt.name() not in elems_by_sort:
+        return a == b
+    parts = []
+    for x in elems_by_sort[srt.name()]:
+        sa, sb = z3.Select(a, x), z3.Select(b, x)
+        parts.append(_array_eq(sa, sb, elems_by_sort) if _is_arr(sa.sort()) else sa == sb)
+    return z3.And(parts)
+
+
+class _NoExpansion(Exception):
+    pass
+
+
+def _consts_of_sort(exprs, sort_names):
+    seen, out, todo = set(), {}, list(exprs)
+    while todo:
+        e = todo.pop()
+        if e.get_id() in seen:
+            continue
+        seen.add(e.get_id())
+        if z3.is_app(e):
+            if e.num_args() == 0 and e.decl().kind() == z3.Z3_OP_UNINTERPRETED and e.sort().kind() == z3.Z3_UNINTERPRETED_SORT \
+                    and e.sort().name() in sort_names:
+                out[e.get_id()] = e
+            todo.extend(e.children())
+    return list(out.values())
+
+
 def refute_finite(pc, goal, kmax=4, timeout_ms=REFUTE_TIMEOUT_MS):
-    """Stage R: look for a countermodel in a finite scope: every uninterpreted sort gets a
-    domain-closure axiom with K elements and `card` terms over ground sets get their defining
-    sum.  A `sat` here is a genuine countermodel of the VC (the theory puts no lower bound on
-    the universe).  Returns (verdict, model_str, K)."""
+    """Stage R: look for a countermodel of  pc |- goal  in a finite scope.  For K = 1..kmax every
+    uninterpreted sort gets K pairwise distinct elements; the VC is expanded over them (see _expand) and
+    every other constant of such a sort is constrained to be one of them.  The result is quantifier free, so
+    z3 decides it; `sat` is a genuine countermodel of the VC over the K-element universe (the theory puts no
+    lower bound on the universe).  Returns (verdict, model_str, K)."""
     fs = list(pc) + [z3.Not(goal)]
     sorts = _uninterpreted_sorts(fs)
-    cards = [c for c in _card_terms(fs) if not _has_free_var(c)]
+    names = {srt.name() for srt in sorts}
     for k in range(1, kmax + 1):
+        elems = {srt.name(): [z3.Const(f"{srt.name()}#{i}", srt) for i in range(k)] for srt in sorts}
+        cache = {}
+        try:
+            ex = [_expand(f, elems, cache) for f in fs]
+        except _NoExpansion as ex_:
+            return "unknown", f"no finite-scope expansion: {ex_}", k
         s = z3.Solver()
         s.set("timeout", timeout_ms)
-        for f in fs:
+        for f in ex:
             s.add(f)
+        scoped = {x.get_id() for els in elems.values() for x in els}
         for srt in sorts:
-            elems = [z3.Const(f"{srt.name()}#{i}", srt) for i in range(k)]
-            x = z3.Const("x!dc", srt)
-            s.add(z3.ForAll([x], z3.Or([x == e for e in elems])))
+            els = elems[srt.name()]
             if k > 1:
-                s.add(z3.Distinct(*elems))
-            for c in cards:
-                arg = c.arg(0)
-                if z3.is_array_sort(arg.sort()) and arg.sort().domain() == srt:
-                    s.add(c == z3.Sum([z3.If(z3.Select(arg, e), 1, 0) for e in elems]))
+                s.add(z3.Distinct(*els))
+        for c in _consts_of_sort(ex, names):
+            if c.get_id() not in scoped:
+                s.add(z3.Or([c == x for x in elems[c.sort().name()]]))
         r = s.check()
         if r == z3.sat:
             return "refuted", _model_str(s.model()), k
